@@ -113,6 +113,8 @@ def reduce_op(name, x, axis=None, skipna=None):
         sk = True
     if sk and name in ("sum", "mean", "std", "max", "min", "argmax", "argmin"):
         name = "nan" + name
+    if (skipna is False or skipna == T.FALSE_T) and name == "sum" and fname(to_term(x)) == "fillna" and to_term(x).args[1] == 0:
+        return op("nansum", to_term(x).args[0], axis_term(axis))     # NaN replaced by 0 and then summed: the NaN-skipping sum
     if skipna is False or skipna == T.FALSE_T:
         name = "strict" + name      # an explicit skipna=False propagates NaN: a different reduction from the default
     return op(name, to_term(x), axis_term(axis))
@@ -323,6 +325,13 @@ def call_numpy(it, tail, args, kwargs, env, node, chain):
         return op("searchsorted", t[0], t[1], to_term(side))
     if tail == "take" and len(t) >= 2 and kw(kwargs, "axis") is None and len(t) == 2:
         return term_getitem(it, t[0], t[1], env, node)      # np.take(a, i) on a vector is a[i]
+    if tail == "append" and len(t) == 2 and kw(kwargs, "axis") is None:
+        # np.append(x[1:], x[0]) is x rotated by one position: np.roll(x, -1)
+        a0, a1 = t
+        if fname(a0) == "item" and fname(a0.args[1]) == "slc" and a0.args[1].args == (sp.Integer(1), NONE_T, NONE_T) \
+                and fname(a1) == "item" and a1.args[0] == a0.args[0] and a1.args[1] == 0:
+            return op("roll", a0.args[0], sp.Integer(-1))
+        return op("concatenate", sp.Tuple(a0, a1), sp.Integer(0))
     if tail == "concatenate":
         seq = a[0]
         axis = a[1] if len(a) > 1 else kw(kwargs, "axis", num(0))
